@@ -1,4 +1,5 @@
 import Proofs.Chain
+import Proofs.Moves
 import Proofs.Events
 import Pegnet.Generated.Facts
 /-
@@ -150,6 +151,20 @@ theorem spr_rewards_exact (P : Params) (oh ts : Int) (ws : List SprW) (s : DB) :
       (fun _ s' => ∀ a x, s'.bal a x = s.bal a x + (if x = tPEG then sprCredit a ws else 0)) :=
   sprRewards_exact P oh ts ws s
 
+/-- **FCT burns, for every address and asset**: before 2.0 a factoid block credits exactly the
+    burned amount of each transaction of burn shape (one FCT input, no FCT output, one zero-amount
+    EC output to the burn RCD) to its input address in pFCT — nothing for any other shape, nothing
+    to anybody else, nothing in any other asset. -/
+theorem fct_burns_credit_exactly (P : Params) (h : Nat) (burnRCD : Addr) (fcts : List FctTx) (s : DB) :
+    Outcome (applyFactoidBlock P h burnRCD fcts s)
+      (fun _ s' => ∀ a x, s'.bal a x = s.bal a x + (fcts.map (fun f => burnDelta burnRCD f a x)).sum) :=
+  applyFactoidBlock_exact P h burnRCD fcts s
+
+/-- a factoid transaction that misses the burn shape in any respect credits nothing -/
+theorem non_burn_shape_credits_nothing (burnRCD : Addr) (f : FctTx) (hb : burnOf burnRCD f = none) (a : Addr) (x : Ticker) :
+    burnDelta burnRCD f a x = 0 := by
+  unfold burnDelta; rw [hb]
+
 end Pegnet.C11
 
 #print axioms Pegnet.C11.version_ladders_match_source
@@ -166,3 +181,5 @@ end Pegnet.C11
 #print axioms Pegnet.C11.burns_only_before_v20
 #print axioms Pegnet.C11.opr_rewards_exact
 #print axioms Pegnet.C11.spr_rewards_exact
+#print axioms Pegnet.C11.fct_burns_credit_exactly
+#print axioms Pegnet.C11.non_burn_shape_credits_nothing
